@@ -578,7 +578,11 @@ class Name:
                     strio.write(struct.pack("!H", 0xC000 | compDict[name]))
                     return
                 else:
-                    compDict[name] = strio.tell() + Message.headerSize
+                    offset = strio.tell() + Message.headerSize
+                    # A compression pointer carries a 14 bit offset: names
+                    # written further into the message cannot be pointed to.
+                    if offset < 0x4000:
+                        compDict[name] = offset
             ind = name.find(b".")
             if ind > 0:
                 label, name = name[:ind], name[ind + 1 :]
@@ -587,6 +591,12 @@ class Name:
                 label = name
                 name = None
                 ind = len(label)
+            if ind > 63:
+                # RFC 1035 section 2.3.4: a length octet above 63 would be
+                # read back as a compression pointer or a reserved label type.
+                raise ValueError(
+                    "DNS label of %d bytes is longer than 63 bytes: %r" % (ind, label)
+                )
             strio.write(_ord2bytes(ind))
             strio.write(label)
         strio.write(b"\x00")
